@@ -47,15 +47,41 @@ def hash_seeds(seed, n):
     return out
 
 
-def spawn(args, hashseed, wall):
+def parse_config(cfg):
+    """An interpreter configuration: "<PYTHONHASHSEED>[:flag[+flag]]" with flags
+    O (python -O), malloc_debug (PYTHONMALLOC=debug), dev (-X dev), preload (import d42's
+    sub-packages in another order before d42 itself)."""
+    s = str(cfg)
+    h, _, fl = s.partition(":")
+    return h, [f for f in fl.split("+") if f]
+
+
+def interpreter_cmd_env(cfg):
+    h, flags = parse_config(cfg)
     env = dict(os.environ)
-    env["PYTHONHASHSEED"] = str(hashseed)
+    env["PYTHONHASHSEED"] = h
+    cmd = [PY, "-u", "-X", "faulthandler"]
+    if "O" in flags:
+        cmd.append("-O")
+    if "dev" in flags:
+        cmd += ["-X", "dev"]
+    if "malloc_debug" in flags:
+        env["PYTHONMALLOC"] = "debug"
+    if "preload" in flags:
+        env["VERIF_PRELOAD"] = "d42.representation,d42.custom_type,d42.generation,d42.validation"
+    else:
+        env.pop("VERIF_PRELOAD", None)
+    return cmd, env
+
+
+def spawn(args, hashseed, wall):
+    cmd, env = interpreter_cmd_env(hashseed)
     env["PYTHONDONTWRITEBYTECODE"] = "1"
     env["D42_SRC"] = d42_src()
     env["D42_VERIF"] = "1"
     env.pop("PYTHONPATH", None)
     args = dict(args, wall_limit=wall)
-    return subprocess.Popen([PY, "-u", "-X", "faulthandler", WORKER, json.dumps(args)],
+    return subprocess.Popen(cmd + [WORKER, json.dumps(args)],
                             stdout=subprocess.PIPE, stderr=subprocess.PIPE, env=env, cwd=VERIF)
 
 
